@@ -42,9 +42,17 @@ def plan(tier):
             for s in range(nsh):
                 tasks.append({"backend": be, "mode": "measures", "N": N, "k": k, "maxlen": maxlen,
                               "kw": KW_MENU_Q if q else KW_MENU_T, "shard": s, "nshards": nsh})
+    # mixed-rate triples made messy: the only regime in which MRTS='auto' (resolved from the
+    # reconciled trains) changes coincidences, see DESIGN 2.1
+    for be in ("py", "pyx"):
+        for s in range(32):
+            tasks.append({"backend": be, "mode": "mixed", "ks": [8], "shard": s, "nshards": 32})
     return {
         "tasks": tasks,
         "bounds": {
+            "mixed_rate_messy": {"states": 3 * 46 * 46, "clock": 8, "raw_form": "every train reversed "
+                                 "with its first and last spike repeated", "keyword": "MRTS='auto'",
+                                 "entry_points": "the 16 list-form entry points"},
             "reconcile": {"alphabet": "lattice points 0..3 plus 6 tolerance probes (global edge "
                                       "-/+ 2^-21 inside the 1e-6 slack, -/+ 2^-19 outside it, -/+ 1)",
                           "sequence_length": 3 if q else 4,
@@ -284,9 +292,42 @@ def run_measures(task):
     return r
 
 
+MIXED_ENTRIES = ["isi_distance(list)", "spike_distance(list)", "isi_profile(list)",
+                 "spike_sync_profile(list)", "spike_sync(list)", "spike_sync_multi",
+                 "spike_sync_matrix", "filter_by_spike_sync", "spike_train_order_profile(list)",
+                 "spike_train_order(list)", "spike_train_order_multi", "spike_train_order(a,b)",
+                 "spike_directionality", "spike_directionality_values(list)",
+                 "spike_directionality_matrix", "isi_distance_matrix"]
+
+
+def run_mixed(task):
+    from mc import pairs, lattice
+    r = Result()
+    _entries()
+    for k, masks in pairs.mixed_rate_triples(tuple(task["ks"]), 2, task["shard"], task["nshards"]):
+        r.states += 1
+        r.transitions += 1
+        trains, edges = pairs.trains_edges(k, masks)
+        raws = []
+        for t in trains:
+            raw = list(reversed(t))
+            if raw:
+                raw = [raw[-1]] + raw + [raw[0]]      # repeat the first and the last spike
+            raws.append(raw)
+        r.sigs.add(hash((k, masks)))
+        for name in MIXED_ENTRIES:
+            eval_measures(r, raws, [list(edges)] * 3, [{"MRTS": "auto"}], task["backend"],
+                          (k, sum(len(x) for x in raws)), only=name)
+        if r.states % 199 == 1:
+            r.sample({"mode": "mixed", "raw": raws, "edges": edges})
+    return r
+
+
 def run_task(task):
     if task["mode"] == "reconcile":
         return run_reconcile(task)
+    if task["mode"] == "mixed":
+        return run_mixed(task)
     return run_measures(task)
 
 
